@@ -400,6 +400,28 @@ def run_job(job, base: Path):
                 o['listed_loads_stored'] = False
         else:
             o['listed_loads_stored'] = False
+    # entries rewritten after they were listed: a sample of the tasks is executed again (bust_cache) by forked workers and
+    # listed once more -- the listing must show the outcome that is stored now, not the one read before
+    o_by_task = [(o, tasks[o['id']]) for o in acc if tasks.get(o['id']) is not None and o.get('listed_own') == 1]
+    sample = o_by_task[:: max(1, len(o_by_task) // 12)][:12]
+    if sample:
+        try:
+            labf = labtech.Lab(storage=storage, context={'c': 3}, runner_backend='fork', max_workers=2, notebook=False)
+            fresh_objs = [_mk(type(t), _var(t)) for _o, t in sample]
+            for f in fresh_objs:     # one call each: tasks that are equal in Python (1 / 1.0 / True) must not share a call
+                labf.run_tasks([f], bust_cache=True, disable_progress=True, disable_top=True)
+            relist = {}
+            for (o, t), f in zip(sample, fresh_objs):
+                name = o['ty']
+                if name not in relist:
+                    relist[name] = lab.cached_tasks([_types()[name]])
+                tree = from_py(t)
+                m = [x for x in relist[name] if type(x) is type(t) and x == t and from_py(x) == tree]
+                o['relisted_meta_ok'] = bool(m and f.result_meta is not None and meta_tok(m[0].result_meta) == meta_tok(f.result_meta))
+        except BaseException as ex:   # noqa
+            for o, _t in sample:
+                o['relisted_meta_ok'] = False
+                o['relist_exc'] = f'{type(ex).__name__}: {ex}'[:200]
     # foreign entries: every listed object must be of the queried type
     for name, lst in listing.items():
         bad = [repr(x)[:80] for x in lst if type(x) is not _types()[name]]
